@@ -438,3 +438,29 @@ func (c *Check) cancelBeforeDrain(rule string, fn *ssa.Function) {
 		c.Info(rule, fnName(fn)+" has no bare drains", fn.Pos(), "")
 	}
 }
+
+// mustFollowDeep: every path from instruction `from` of fn to a success return of fn passes pred; where fn is a new
+// helper and one of its success returns is reached without pred, the obligation moves to the helper's caller: it
+// must hold from the call site on (the rest of the old function's body now lives there, possibly in a sibling
+// helper, which mustPassFrom looks into). n counts the success returns that were reachable.
+func mustFollowDeep(fn *ssa.Function, from ssa.Instruction, pred func(ssa.Instruction) bool, depth int) (ok bool, n int) {
+	ok = true
+	for _, r := range successReturns(fn) {
+		if from != nil && !reachableFrom(from, r) {
+			continue
+		}
+		n++
+		if mustPassFrom(fn, from, r, pred) {
+			continue
+		}
+		if depth < 4 && isNewFunc(fn) && fn.Parent() == nil {
+			if site := transparentSite(fn); site != nil {
+				if ok2, n2 := mustFollowDeep(site.Parent(), site, pred, depth+1); ok2 && n2 > 0 {
+					continue
+				}
+			}
+		}
+		ok = false
+	}
+	return ok, n
+}
